@@ -138,6 +138,46 @@ def run(ctx):
                        c.loc(b["value"].get("sp")))
     rs.require(2, "functions")
 
+    # line selection: which line is taken as the one holding an offset
+    rsel = ctx.rule("R14-SELECT", "the line search takes the line with `pos + line.len() > o` for the offset o of a character (span start, position) and "
+                    "`pos + line.len() >= end` for the exclusive end of a span: the lines holding the first and the last character")
+    want_ops = {("display_span", "start"): ">", ("display_span", "end"): ">=", ("display_position", "pos"): ">"}
+    seen_sel = set()
+    for nm in ("display_span", "display_position"):
+        fid = "pest_typed::formatter::FormatOption::<SF, MF, NF>::" + nm
+        b = g.bodies.get(fid)
+        if b is None:
+            rsel.violate(nm, "function missing (anchor lost)")
+            continue
+        for n in walk(b["value"]):
+            if n["k"] != "if" or n["cond"]["k"] != "binary" or n["cond"]["op"] not in (">", ">=", "<", "<="):
+                continue
+            cd = n["cond"]
+            sides = [cd["l"], cd["r"]]
+            meth = None
+            for i_, sd in enumerate(sides):
+                if sd["k"] == "mcall" and sd["name"] in ("start", "end", "pos") and not sd["args"]:
+                    meth, other, flipped = sd["name"], sides[1 - i_], i_ == 0
+            if meth is None or not (other["k"] == "binary" and other["op"] == "+"):
+                continue
+            op = cd["op"]
+            if flipped:   # `o < pos + len` is `pos + len > o`
+                op = {"<": ">", "<=": ">=", ">": "<", ">=": "<="}[op]
+            key = "%s: %s line" % (nm, meth)
+            seen_sel.add((nm, meth))
+            want = want_ops.get((nm, meth))
+            if want is None:
+                continue
+            if op == want:
+                rsel.inst(key, c.loc(n.get("sp")), "ok", {"test": "pos + line.len() %s %s()" % (op, meth)})
+            else:
+                rsel.violate(key, "the search stops at the first line with pos + line.len() %s %s(); the line holding that character is the first with %s"
+                             % (op, meth, want), c.loc(n.get("sp")))
+    for k_ in want_ops:
+        if k_ not in seen_sel:
+            rsel.violate("%s: %s line" % k_, "line search comparison not found (anchor lost)")
+    rsel.require(3, "line searches")
+
     # gutter: the width of the number column is computed from the largest line number that is printed
     rgt = ctx.rule("R14-GUTTER", "every display_snippet_* call in display_span / display_position gets the width ceil_log10(L + 1) where L is the "
                    "0-based line of the last line it prints (the first argument of the Partition built for it): numbered and unnumbered rows align")
